@@ -569,7 +569,7 @@ pub fn run(ctx: &Ctx) -> ! {
     let mut rep = Report::new(
         ctx,
         "model_checking",
-        "messages {empty operation group, Print-Job request, Get-Printer-Attributes response, bare IppPayload} x payload source {none, blocking cursor, blocking 1-byte dribbler, blocking with Interrupted, async ready, async fragmented, async not-ready with immediate wake, async not-ready with deferred wake (fired by the manual executor / a helper thread under block_on)} x payload length {0,1,2,8191,8192,8193 (+65536, 3 MiB)} x consumer {into_read, into_async_read, into_async_read coming back with a DIFFERENT buffer after every not-ready answer} with EVERY sequence of <= 2 (3) buffer sizes over {0,1,2,3,8,H-1,H,H+1,4096,65536} (a zero-length buffer must return 0 without ending the stream) followed by a fixed size from {7,4096,65536} until end-of-stream; plus payload sources (blocking and async) that FAIL after 0, 1, 5, 8192, 8193 bytes with each of 10 error kinds, read through both interfaces: the stream may fail but never ends cleanly before the payload did, and what it delivered is a prefix of the expected stream; the same with a TRANSIENT failure (returned once, then the source goes on) and a consumer that reads on: nothing may be lost or duplicated around the failure. Oracle: bytes received == to_bytes() ++ payload, then Ok(0) three times (when the payload source is first touched is recorded, not judged). states = distinct (message, source, length, interface); transitions = reads answered by the payload source; non-trivial = non-empty payload",
+        "messages {empty operation group, Print-Job request, Get-Printer-Attributes response, bare IppPayload} x payload source {none, blocking cursor, blocking 1-byte dribbler, blocking with Interrupted, async ready, async fragmented, async not-ready with immediate wake, async not-ready with deferred wake (fired by the manual executor / a helper thread under block_on)} x payload length {0,1,2,8191,8192,8193 (+65536, 3 MiB)} x consumer {into_read, into_async_read, into_async_read coming back with a DIFFERENT buffer after every not-ready answer} with EVERY sequence of <= 2 (3) buffer sizes over {0,1,2,3,8,H-1,H,H+1,4096,65536} (a zero-length buffer must return 0 without ending the stream) followed by a fixed size from {7,4096,65536} until end-of-stream; plus payload sources (blocking and async) that FAIL after 0, 1, 5, 8192, 8193 bytes with each of 10 error kinds, read through both interfaces: the stream may fail but never ends cleanly before the payload did, and what it delivered is a prefix of the expected stream; the same with a TRANSIENT failure (returned once, then the source goes on) and a consumer that reads on: nothing may be lost or duplicated around the failure; plus payloads of 1 GiB + 4097 (thorough: and 4 GiB + 4097) bytes from a pattern generator, verified on the fly, for both source kinds x both interfaces. Oracle: bytes received == to_bytes() ++ payload, then Ok(0) three times (when the payload source is first touched is recorded, not judged). states = distinct (message, source, length, interface); transitions = reads answered by the payload source; non-trivial = non-empty payload",
     );
     rep.assume("deferred wake-ups under the blocking interface are fired by a helper OS thread (block_on must be woken from outside); its timing does not influence the byte stream");
     let msgs = messages();
@@ -577,6 +577,10 @@ pub fn run(ctx: &Ctx) -> ! {
     if let Some(p) = &ctx.replay {
         let (_, j) = vmc::report::load_replay(p);
         let mut st = Stats::new();
+        if j["section"].as_str() == Some("huge") {
+            println!("replay: huge-payload case ({}); re-run the check to reproduce", j);
+            std::process::exit(0)
+        }
         if j["section"].as_str() == Some("failing-source") {
             let kinds: Vec<ErrorKind> = FAULT_KINDS.iter().copied().chain([ErrorKind::InvalidData, ErrorKind::WriteZero, ErrorKind::NotConnected]).collect();
             let kind = kinds.iter().copied().find(|k| Some(format!("{:?}", k).as_str()) == j["kind"].as_str()).unwrap_or(ErrorKind::Other);
@@ -692,6 +696,87 @@ pub fn run(ctx: &Ctx) -> ! {
         fs.merge(p);
     }
     rep.section("failing-payload-sources", fs);
+    // huge payloads (streamed from a pattern generator, verified on the fly, never stored): a cap, a counter of the
+    // wrong width or an adaptor with a limit anywhere in the stream path shows as a short or altered stream
+    let sizes: &[u64] = ctx.tier.pick(&[(1u64 << 30) + 4097][..], &[(1u64 << 30) + 4097, (1u64 << 32) + 4097][..]);
+    let mut jobs: Vec<(u64, bool, bool)> = vec![];
+    for &len in sizes {
+        for async_source in [false, true] {
+            for async_consumer in [false, true] {
+                jobs.push((len, async_source, async_consumer));
+            }
+        }
+    }
+    let mut hs = Stats::new();
+    for p in vmc::explore::par_slice(ctx.threads, &jobs, Stats::new, |st, _, (len, async_source, async_consumer)| {
+        let (len, async_source, async_consumer) = (*len, *async_source, *async_consumer);
+        st.evaluations += 1;
+        st.traces += 1;
+        st.transitions += len >> 16;
+        st.nontrivial.insert(fnv(format!("huge:{}:{}:{}", len, async_source, async_consumer).as_bytes()));
+        let m = msgs[1].clone().unwrap();
+        let r = std::panic::catch_unwind(std::panic::AssertUnwindSafe(move || -> Result<(usize, PatternCheck, Vec<u8>, Vec<u8>), String> {
+            let mut req = build_ipp(&m);
+            let head = req.to_bytes().to_vec();
+            let src = PatternSource::new(Arc::new(vec![]), len);
+            *req.payload_mut() = if async_source { IppPayload::new_async(src) } else { IppPayload::new(src) };
+            let mut got_head: Vec<u8> = vec![];
+            let mut chk = PatternCheck::new();
+            let mut buf = vec![0u8; 1 << 16];
+            let hl = head.len();
+            let feed = |chunk: &[u8], got_head: &mut Vec<u8>, chk: &mut PatternCheck| {
+                let need = hl - got_head.len().min(hl);
+                let k = need.min(chunk.len());
+                got_head.extend_from_slice(&chunk[..k]);
+                if k < chunk.len() {
+                    chk.feed(&chunk[k..]);
+                }
+            };
+            if async_consumer {
+                let mut rd = Box::pin(req.into_async_read());
+                let mon = Monitor::new();
+                let fut = async {
+                    loop {
+                        match rd.read(&mut buf).await {
+                            Ok(0) => return Ok(()),
+                            Ok(n) => feed(&buf[..n], &mut got_head, &mut chk),
+                            Err(e) => return Err(format!("read error {:?} after {} payload bytes", e.kind(), chk.received)),
+                        }
+                    }
+                };
+                match run_manual(fut, &mon, 1 << 22, None) {
+                    Run::Done { value, .. } => value?,
+                    _ => return Err("the stream did not finish although the source is always ready".into()),
+                }
+            } else {
+                let mut rd = req.into_read();
+                loop {
+                    match rd.read(&mut buf) {
+                        Ok(0) => break,
+                        Ok(n) => feed(&buf[..n], &mut got_head, &mut chk),
+                        Err(e) if e.kind() == ErrorKind::Interrupted => continue,
+                        Err(e) => return Err(format!("read error {:?} after {} payload bytes", e.kind(), chk.received)),
+                    }
+                }
+            }
+            Ok((hl, chk, got_head, head))
+        }));
+        let iface = if async_consumer { "async" } else { "blocking" };
+        let case = json!({"huge_payload": len, "source": if async_source { "async" } else { "blocking" }, "consumer": iface, "section": "huge"});
+        match r {
+            Ok(Ok((_, chk, got_head, head))) if got_head == head && chk.received == len && chk.first_mismatch.is_none() => st.outcome("huge-stream-exact"),
+            Ok(Ok((_, chk, got_head, head))) => st.violate(
+                format!("{}:huge-stream-{}", iface, if got_head != head { "header-differs" } else if chk.first_mismatch.is_some() { "corrupt" } else if chk.received < len { "short" } else { "long" }),
+                format!("{}: payload of {} bytes came out as {} bytes (first altered byte {:?}; header intact: {})", case, len, chk.received, chk.first_mismatch, got_head == head),
+                case.clone(),
+            ),
+            Ok(Err(e)) => st.violate(format!("{}:huge-stream-error", iface), format!("{}: {}", case, e), case.clone()),
+            Err(p) => st.violate(format!("{}:panic", iface), panic_text(p), case.clone()),
+        }
+    }) {
+        hs.merge(p);
+    }
+    rep.section("huge-payloads", hs);
     rep.set("buffer_size_patterns", json!(patterns.len()));
     rep.finish()
 }
